@@ -458,8 +458,9 @@ class Lab:
             top_n=top_n,
         )
         results = coordinator.run(tasks)
-        # Return results in the same order as tasks
-        return {task: results[task] for task in tasks}
+        # Return results in the same order as tasks (tasks that failed
+        # when continue_on_failure=True have no result to return)
+        return {task: results[task] for task in tasks if task in results}
 
     def run_task(self, task: Task[ResultT], **kwargs) -> ResultT:
         """Run a single task and return its result. Supports the same keyword
